@@ -16,14 +16,14 @@ var VerifDir = "/verif"
 // LoadRepo loads the packages of the repository and all contracts.
 func LoadRepo(repo string) (*Engine, error) {
 	db := NewContractDB()
-	if err := db.LoadRepoContracts(repo, ModPath); err != nil {
-		return nil, err
-	}
 	spec := filepath.Join(VerifDir, "contracts", "stdlib.spec")
 	if _, err := os.Stat(spec); err == nil {
 		if err := db.LoadFile(spec, "", true); err != nil {
 			return nil, err
 		}
+	}
+	if err := db.LoadRepoContracts(repo, ModPath); err != nil {
+		return nil, err
 	}
 	start := time.Now()
 	eng, err := Load(repo, []string{"./cmd/...", "./lambda/..."})
@@ -456,6 +456,38 @@ func RunCheck(id, tier, repo string, seed int, updateBaseline, quiet, writeEvide
 				addA("abstraction: " + u.Name + ": " + w)
 			}
 		}
+		// contracts of callees that this property relies on but does not verify itself
+		inSet := map[string]bool{}
+		for _, n := range names {
+			inSet[n] = true
+		}
+		usedElsewhere := map[string]bool{}
+		for _, u := range units {
+			for c := range u.UsedContracts {
+				if !inSet[c] {
+					usedElsewhere[c] = true
+				}
+			}
+		}
+		var ue []string
+		for c := range usedElsewhere {
+			ue = append(ue, c)
+		}
+		sort.Strings(ue)
+		for _, c := range ue {
+			where := "NOT verified by any check (assumed)"
+			var by []string
+			for pid, pc := range props {
+				if anyMatch(pc.Functions, c) && !anyMatch(pc.Exclude, c) {
+					by = append(by, pid)
+				}
+			}
+			sort.Strings(by)
+			if len(by) > 0 {
+				where = "verified by check " + strings.Join(by, ", ")
+			}
+			addA("callee contract used modularly: " + c + " — " + where)
+		}
 		for _, a := range trustedAssumptions() {
 			addA(a)
 		}
@@ -545,7 +577,7 @@ func (e *Engine) constUnit(cfg *PropCfg) []*Unit {
 		if !anyMatch(cfg.Consts, cc.Name) && !anyMatch(cfg.Consts, cc.Pkg+"."+cc.Name) {
 			continue
 		}
-		u := &Unit{Name: shortName(cc.Pkg) + ".const", Sorts: newSorts(e)}
+		u := &Unit{Name: shortName(cc.Pkg) + ".const", Sorts: newSorts(e), UsedContracts: map[string]bool{}}
 		g := &vcgen{eng: e, u: u, s: u.Sorts, st: &State{m: map[string]string{}}, pc: "true", varSort: map[string]string{}, declared: map[string]bool{},
 			embIDs: map[string]int{}, callOrd: map[string]int{}, freshObjs: map[string]bool{}}
 		g.stateVar("G.alloc", "Int")
